@@ -53,6 +53,9 @@ type feesIn struct {
 	Seed        int64     `json:"seed"`
 	Generator   int       `json:"generator"`
 	Fees        []uint64  `json:"fees"`
+	// Status[i] of block transaction i (0 unset, 1 TxnSuccess, 2 TxnError = chargeable error, 3 TxnFail); the chain charges
+	// the fee of every transaction of the block to the miner contract address whatever its status (chain/state.go:556)
+	Status []int `json:"status,omitempty"`
 	Client      int       `json:"client"`
 	InRound     int64     `json:"in_round"`
 	Miners      []feeNode `json:"miners"`
@@ -239,8 +242,12 @@ func (in *feesIn) prepare(ctx *cstate.StateContext) {
 	b.MinerID = in.hx(in.Generator)
 	b.SetRoundRandomSeed(in.Seed)
 	b.Txns = nil
-	for _, f := range in.Fees {
-		b.Txns = append(b.Txns, &transaction.Transaction{Fee: currency.Coin(f)})
+	for i, f := range in.Fees {
+		t := &transaction.Transaction{Fee: currency.Coin(f)}
+		if i < len(in.Status) {
+			t.Status = in.Status[i]
+		}
+		b.Txns = append(b.Txns, t)
 	}
 	mb := ctx.GetMagicBlock(in.Round)
 	mb.Sharders = node.NewPool(node.NodeTypeSharder)
@@ -651,7 +658,11 @@ func genFees(r *vh.Rand) *feesIn {
 		if r.Chance(1, 10) {
 			f = genRealistic(r)
 		}
+		if f == 0 && r.Bool() {
+			f = uint64(r.Range(1, 5000))
+		}
 		in.Fees = append(in.Fees, f)
+		in.Status = append(in.Status, []int{0, 1, 1, 2, 2, 3}[r.Intn(6)])
 	}
 	nm := r.Range(1, 3)
 	for i := 0; i < nm; i++ {
@@ -705,7 +716,7 @@ func genBlockFees(r *vh.Rand) *feesIn {
 		}
 		kinds[p2] = 'P'
 	}
-	in.Fees = make([]uint64, n)
+	in.Fees, in.Status = make([]uint64, n), nil
 	for i := range kinds {
 		if kinds[i] == 'S' {
 			in.Fees[i] = uint64(r.Intn(100000))
@@ -728,6 +739,8 @@ func fixedFees() []*feesIn {
 			Miners: []feeNode{n(100, dpoolIn{50, 0}), n(101, dpoolIn{50, 0})}},
 		{ShareBits: half, BlockReward: 1000, RateBits: one, NMD: 10, NSR: 1, NSD: 10, Round: 7, Seed: 1, Generator: 100, Client: 100, InRound: 8,
 			Miners: []feeNode{n(100, dpoolIn{50, 0})}},
+		{ShareBits: half, BlockReward: 1000, RateBits: one, NMD: 10, NSR: 1, NSD: 10, Round: 7, Seed: 1, Generator: 100, Client: 100, InRound: 7,
+			Fees: []uint64{15, 25, 40, 8}, Status: []int{1, 2, 3, 0}, Miners: []feeNode{n(100, dpoolIn{50, 0})}, Sharders: []feeNode{n(200, dpoolIn{60, 0})}},
 		// block level: one payFees; two adjacent; two in different validation batches (first / last)
 		{ShareBits: half, BlockReward: 1000, RateBits: one, NMD: 10, NSR: 1, NSD: 10, Round: 17, Seed: 4711, Generator: 100, Client: 100, InRound: 17,
 			Fees: []uint64{37, 37, 37, 0}, Miners: []feeNode{n(100, dpoolIn{500, 0})}, Sharders: []feeNode{n(200, dpoolIn{500, 0})},
@@ -758,7 +771,16 @@ func shrinkFees(in *feesIn, sig string) *feesIn {
 		}
 	}
 	if c.Block == nil {
-		try(func(d *feesIn) { d.Fees = nil })
+		try(func(d *feesIn) { d.Fees, d.Status = nil, nil })
+		for i := len(c.Fees) - 1; i >= 0; i-- {
+			i := i
+			try(func(d *feesIn) {
+				d.Fees = append(d.Fees[:i], d.Fees[i+1:]...)
+				if i < len(d.Status) {
+					d.Status = append(append([]int{}, d.Status[:i]...), d.Status[i+1:]...)
+				}
+			})
+		}
 	} else {
 		for i := len(c.Block.Kinds) - 1; i >= 0; i-- {
 			i := i
@@ -790,7 +812,7 @@ func runC22(o vh.Opts) {
 	rep := vh.NewReport("stake", "C22", o)
 	rep.Rule = "one case = one payFees transaction (followed by an identical repeat when it succeeded) through minersc.Execute on a real state: " +
 		"1-3 miners, 0-4 sharders (some killed, some not in the magic block, 0-5 delegates each with zero / small / large stakes, min stake, " +
-		"service charge 0-0.5), share ratio 0, 1, 0.16, ... or random, block reward 0 ... 2^53+1, reward rate 1/0.5/0.9/0, 0-5 transaction fees, " +
+		"service charge 0-0.5), share ratio 0, 1, 0.16, ... or random, block reward 0 ... 2^53+1, reward rate 1/0.5/0.9/0, 0-5 block transactions with non-zero fees and every status (unset, success, chargeable error, fail), " +
 		"rewarded sharders 0-100, rewarded delegates 0-10, both hard-fork variants; caller = generator or (1 in 5) somebody else, input round = block " +
 		"round or (1 in 6) off by up to 2, generator sometimes not a registered miner; non-trivial = accepted and every involved node eligible; distinct by full input"
 	rep.Note("block level: 60 (quick) blocks of 2-12 signed transactions with one or two payFees of the generator (adjacent, far apart, first/last) and validation batch sizes 1,2,3,5,64 go through the real miner.ValidateTransactions; accepted blocks are executed through the contract")
@@ -906,7 +928,7 @@ func runC09(o vh.Opts) {
 					c = d
 				}
 			}
-			try(func(d *feesIn) { d.Fees = nil })
+			try(func(d *feesIn) { d.Fees, d.Status = nil, nil })
 			for i := len(c.Sharders) - 1; i >= 0 && len(c.Sharders) > 2; i-- {
 				i := i
 				try(func(d *feesIn) { d.Sharders = append(d.Sharders[:i], d.Sharders[i+1:]...) })
